@@ -224,13 +224,22 @@ def one_call(ctx, TdmsFile, api, own, path, bad, info, fresh_vals, rng, ik):
         else:
             tf = TdmsFile.open(arg, raw_timestamps=True)
             chans = [c for g in tf.groups() for c in g.channels() if len(c)]
-            if chans:
-                chans[0][0]
+            for c in chans[:2]:
+                c[rng.choice([0, len(c) - 1, len(c) // 2])]      # fills the one-chunk cache with some chunk
             tf.close()
             tf.close()
             ctx.count('double_close')
             # reads after close: must raise, or (cache) be correct
             for c in chans[:2]:
+                n_ = len(c)
+                for i_ in sorted({n_ - 1, n_ // 2, 1 % n_, -1}):
+                    ctx.count('after_close_ops')
+                    try:
+                        got = c[i_]
+                    except Exception:
+                        continue
+                    if fresh_vals is not None and scalar_image(got) != scalar_image(fresh_vals[(c.group_name, c.name)][i_]):
+                        ctx.violation('stale-or-wrong-data-after-close/index', dict(info, index=i_, got=repr(got)[:100]))
                 for op, fn in (('index0', lambda: c[0]), ('full', lambda: c[:]), ('read_data', lambda: c.read_data(0, 1)),
                                ('chunks', lambda: [x[:] for x in c.data_chunks()]), ('iter', lambda: list(c))):
                     ctx.count('after_close_ops')
